@@ -134,6 +134,8 @@ def run_property(prop, tier, specs, level, title, assumptions, functions_hint=()
             for f in pre_info['failed']:
                 viols.setdefault(f['sig'], (f['what'], f.get('model', {}), None, f.get('spec')))
         limits.extend(pre_info.get('limits', []))
+    engine.CONTINUE_SIGS = set(sg for k in known if k.get('property') == prop and k.get('status', 'open') == 'open'
+                               for sg in k.get('signatures', []))
     for spec in specs:
         engine.LOGIC = spec.logic
         fn = load_func(spec.module, spec.func)
